@@ -8,16 +8,23 @@ ALL = [("G06_datachecker", "tools.tr.tr_datachecker", "write"),
        ("G06_exit", "tools.tr.tr_exit", "write"),
        ("G02_registry", "tools.tr.tr_wire", "write"),
        ("G02_oldstyle", "tools.tr.tr_oldstyle", "write"),
+       ("G02_packers", "tools.tr.tr_packers", "write"),
        ("G01_handlers", "tools.tr.tr_handlers", "write"),
        ("G01_auth", "tools.tr.tr_auth", "write"),
        ("G03_recv", "tools.tr.tr_recv", "write"),
        ("G09_rules", "tools.tr.tr_reclaim", "write"),
        ("G13_lan", "tools.tr.tr_lan", "write"),
        ("G15_consts", "tools.tr.tr_dht_consts", "write"),
+       ("G15_handlers", "tools.tr.tr_dht_handlers", "write"),
        ("G19_db", "tools.tr.tr_db", "write"),
+       ("G19x_upgrade", "tools.tr.tr_db", "write_upgrade"),
        ("G07_consts", "tools.tr.tr_tunnel_ep", "write"),
+       ("G07_tunnel_ep", "tools.tr.tr_tunnel_ep", "write_gen"),
        ("G11_api+unload", "tools.tr.tr_lifecycle", "write"),
-       ("G18_fp2", "tools.tr.tr_value", "write")]
+       ("G18_fp2", "tools.tr.tr_value", "write"),
+       ("G10_reqcache", "tools.tr.tr_reqcache", "write"),
+       ("G14_routing", "tools.tr.tr_routing", "write"),
+       ("G16_tokentree", "tools.tr.tr_tokentree", "write")]
 
 
 def main():
